@@ -426,6 +426,16 @@ func runC04(h *H) {
 		}
 	}
 	h.thriftMessageRoundTrip(false)
+	// unions: every member kind × zero / non-zero × protocols; improper union values; several members on the wire
+	if h.Thorough() {
+		h.thriftUnionSweep("C04", 12)
+		h.thriftUnionImproper(300)
+		h.thriftUnionMulti(150)
+	} else {
+		h.thriftUnionSweep("C04", 1)
+		h.thriftUnionImproper(20)
+		h.thriftUnionMulti(12)
+	}
 	for i := 0; i < N; i++ {
 		t, val := h.genThriftCase()
 		ts := t.String()
@@ -450,6 +460,13 @@ func runC13(h *H) {
 	N := 700
 	if h.Thorough() {
 		N = 12000
+	}
+	if h.Thorough() {
+		h.thriftUnionSweep("C13", 10)
+		h.thriftUnionImproper(100)
+	} else {
+		h.thriftUnionSweep("C13", 1)
+		h.thriftUnionImproper(10)
 	}
 	for i := 0; i < N; i++ {
 		t, val := h.genThriftCase()
@@ -746,6 +763,13 @@ func runC08(h *H) {
 	h.thriftBadTypes()
 	h.thriftDeltaStop(true)
 	h.thriftDepth()
+	if h.Thorough() {
+		h.thriftUnionSweep("C08", 4)
+		h.thriftUnionMulti(60)
+	} else {
+		h.thriftUnionSweep("C08", 1)
+		h.thriftUnionMulti(6)
+	}
 	for i := 0; i < N; i++ {
 		t, val := h.genThriftCase()
 		ts := t.String()
@@ -883,6 +907,7 @@ func runC08(h *H) {
 	}
 	// allocation clause: measured allocation against the accounting model (thriftalloc.go)
 	h.thriftAllocCases()
+	runC09HistErr(h, "C08") // c09histerr.go
 }
 
 // ---- directed generators for the decoder / writer repairs ------------------------------------------
